@@ -185,6 +185,13 @@ func ruleKeysetGuard(c *Ctx, r *Reporter) {
 
 // revisionNonZeroFact: block has fact `<obj>.revision != 0` for the parameter with the given name.
 func revisionGuard(fn *ssa.Function, b *ssa.BasicBlock, param string) bool {
+	_, _, ok := revisionGuardFact(fn, b, param)
+	return ok
+}
+
+// revisionGuardFact returns the branch condition (and its value) that establishes
+// `<param>.revision != 0` at block b.
+func revisionGuardFact(fn *ssa.Function, b *ssa.BasicBlock, param string) (ssa.Value, bool, bool) {
 	// the parameter by position: reindex(primaryKey, old, new)
 	var pv *ssa.Parameter
 	switch param {
@@ -231,8 +238,37 @@ func revisionGuard(fn *ssa.Function, b *ssa.BasicBlock, param string) bool {
 			continue
 		}
 		if (bo.Op == token.NEQ && f.Val) || (bo.Op == token.EQL && !f.Val) {
+			return f.Cond, f.Val, true
+		}
+	}
+	return nil, false, false
+}
+
+// alwaysAfterGuard: once `<param>.revision != 0` is established, every path to a return
+// passes the call (no shortcut skips it).
+func alwaysAfterGuard(fn *ssa.Function, call *ssa.Call, param string) bool {
+	cond, val, ok := revisionGuardFact(fn, call.Block(), param)
+	if !ok {
+		return false
+	}
+	for _, ia := range allInstrs(fn) {
+		iff, ok := ia.In.(*ssa.If)
+		if !ok || iff.Cond != cond {
+			continue
+		}
+		succ := iff.Block().Succs[1]
+		if val {
+			succ = iff.Block().Succs[0]
+		}
+		if len(succ.Instrs) == 0 {
+			return false
+		}
+		first := succ.Instrs[0]
+		if first == ssa.Instruction(call) {
 			return true
 		}
+		leak := reachesReturnAvoiding(first, func(in ssa.Instruction) bool { return in == ssa.Instruction(call) }, nil)
+		return leak == nil
 	}
 	return false
 }
@@ -286,6 +322,9 @@ func ruleReindexSiblings(c *Ctx, r *Reporter) {
 		}
 		r.check(revisionGuard(fn, ins.Block(), "new"), name+"|insert under new.revision != 0", c.posStr(instrPos(ins)), "new keys are inserted only for an existing new object", "the insertion of new keys is not guarded by new.revision != 0: a deleted object (zero object) gets indexed")
 		r.check(revisionGuard(fn, del.Block(), "old"), name+"|remove under old.revision != 0", c.posStr(instrPos(del)), "old keys are removed only when an old object existed", "the removal of old keys is not guarded by old.revision != 0")
+		r.check(alwaysAfterGuard(fn, ins, "new") && alwaysAfterGuard(fn, del, "old"), name+"|no shortcut around insertion/removal", c.posStr(fn.Pos()),
+			"whenever the new object exists all its keys are inserted, and whenever an old object existed all its keys are examined for removal (no early exit in between)",
+			"a shortcut skips the insertion of new keys or the removal of obsolete keys on some path (e.g. 'first key unchanged'): objects with several keys keep stale index entries / miss new ones")
 		// the new key set iterated is the one consulted by Exists
 		var exists *ssa.Call
 		for _, ia := range allInstrs(delCl) {
